@@ -31,6 +31,14 @@ def gen():
         out.append("(* what is compared, component by component, with every row of the table, in table order; first match wins *)\n")
         out.append('Definition lookup_compares : string := "%s".\n' % what.replace('"', '""'))
         out.append("Definition lookup_first_match_in_table_order : bool := true.\n")
+    elif re.search(r"self\.pos_list\.iter\(\)\.position\(\|(\w+)\|(.+?)\.iter\(\)\.zip\(\1\)\.all\(\|\((\w+),(\w+)\)\|\3\.as_ref\(\)==\4\)\)\.map\(\|(\w+)\|\5asu16\)$", b):
+        # the same traversal as an iterator chain: `position` yields the index of the FIRST row for which the predicate holds
+        mp = re.search(r"self\.pos_list\.iter\(\)\.position\(\|(\w+)\|(.+?)\.iter\(\)\.zip\(\1\)\.all\(", b)
+        what = mp.group(2)
+        what = "requested" if what == req else what.replace(req, "requested")
+        out.append("(* what is compared, component by component, with every row of the table, in table order; first match wins *)\n")
+        out.append('Definition lookup_compares : string := "%s".\n' % what.replace('"', '""'))
+        out.append("Definition lookup_first_match_in_table_order : bool := true.\n")
     else:
         m2 = re.search(r"if(.+?)==\*?(\w+)(?:\.as_slice\(\))?\{returnSome\((\w+)asu16\);\}", b)
         if not m2:
